@@ -32,6 +32,17 @@ def check_call(prog, ref, h, args_n, kw_n, acc):
     out = prog.call(args, kwargs)
     okind, trace = out[0], out[1]
     discs = []
+    if len(kwargs) >= 0 and ref.kw_order_twins(args, kwargs):
+        # same signature up to the declaration order of keyword-only parameters: replacement or tie is unspecified;
+        # only "no body runs on an error" and "a method that runs is applicable" are judged
+        if acc is not None:
+            acc.count("evaluations")
+            acc.count("abstained_keyword_order_twins")
+        if okind == "ret" and not ref.applicable(ref.by_id[trace[0]], args, kwargs):
+            discs.append(("ret:inapplicable-method", {"trace": list(trace)}))
+        elif okind != "ret" and trace:
+            discs.append(("body-ran-on-error", {"expected": rkind, "trace": list(trace)}))
+        return discs
     if acc is not None:
         acc.count("evaluations")
         acc.h("expected", rkind)
